@@ -13,6 +13,7 @@ func init() {
 				{Harness: "vh_C06_defer_args", Unroll: 8},
 				{Harness: "vh_C06_defer_slice", Unroll: 8},
 				{Harness: "vh_C06_defer_bin", Unroll: 8},
+				{Harness: "vh_C06_recover", Unroll: 8},
 			}
 		},
 		Bounds:      []string{"defer stack of 0..3 entries", "each deferred callee: returns / recovers / panics with a new value", "body: returns or panics", "Execute: root program panics with an arbitrary string value or returns"},
